@@ -124,7 +124,13 @@ def observe(cmd, args):
         try:
             ENTRIES[entry](s)
         except RecursionError:
-            return "ok"          # nesting depth is bounded by the interpreter's recursion budget (excluded by the property)
+            # nesting depth is bounded by the interpreter's recursion budget (excluded by the property) - but only NESTING: a long flat input is not deep
+            depth = cur = 0
+            for ch in s:
+                if ch == "(": cur += 1; depth = max(depth, cur)
+                elif ch == ")": cur = max(cur - 1, 0)
+            if depth < 100: return "escaped: RecursionError from %s on an input nested only %d deep (length %d)" % (entry, depth, len(s))
+            return "ok"
         except BaseException as e:
             return "escaped: %s from %s" % (type(e).__name__, entry)
         return "ok"
